@@ -720,6 +720,39 @@ theorem lookup_by_id_sequential {δ : Type} (f : CRun α → δ) (d : String →
   rw [sequential_ids]
   exact List.nodup_range
 
+theorem customRuns_ok_rowsFrom {ncols : Nat} {rows : List (List α)} {ps : List CParam}
+    {rs : List (CRun (CVal α))} (h : customRuns ncols rows ps = .ok rs) :
+    rowsFrom (cenabled ps) 0 rows = some rs := by
+  unfold customRuns at h
+  dsimp only at h
+  split at h
+  · cases h
+  · split at h
+    · cases h
+    · split at h
+      · rename_i rs' hrs'; cases h; exact hrs'
+      · cases h
+
+/-- the run ids of custom mode are the row numbers 0, 1, …, N−1 -/
+theorem custom_ids {ncols : Nat} {rows : List (List α)} {ps : List CParam}
+    {rs : List (CRun (CVal α))} (h : customRuns ncols rows ps = .ok rs) :
+    rs.map (·.index) = List.range rs.length := by
+  obtain ⟨hlen, hall⟩ := rowsFrom_spec (customRuns_ok_rowsFrom h)
+  apply List.ext_getElem?
+  intro m
+  by_cases hm : m < rs.length
+  · obtain ⟨a, _, hrm⟩ := hall m rows[m] (List.getElem?_eq_getElem (hlen ▸ hm))
+    simp [hrm, hm]
+  · simp [List.getElem?_eq_none (Nat.le_of_not_lt hm), hm]
+
+theorem lookup_by_id_custom {δ : Type} (f : CRun (CVal α) → δ) {ncols : Nat} {rows : List (List α)}
+    {ps : List CParam} {rs : List (CRun (CVal α))} (h : customRuns ncols rows ps = .ok rs)
+    {r : CRun (CVal α)} (hr : r ∈ rs) :
+    (result (·.index) f rs).lookup r.index = some (f r) := by
+  apply lookup_result (fun r : CRun (CVal α) => r.index) f _ _ hr
+  rw [custom_ids h]
+  exact List.nodup_range
+
 -- the hypothesis of `lookup_by_label` is not decorative: a repeated value makes two runs share a label
 example :
     (result labelPar (fun r => r.runIndex)
